@@ -529,6 +529,23 @@ def run_concurrency(num, tier, seed, only=None):
     sys.stderr.write('%s %s: %d K3 queries\n' % (pid, tier, len(qs)))
     validate_translation(ev, sorted({q.meta['cont'] for q in qs}), seed, tier)
     core.run_all(qs)
+    # a loop the library's own containers do not bound (e.g. a bounded spin around try_lock in the mutex wrapper) exceeds
+    # the unwinding bound derived from the capacity: decide such a query once more with a generous bound instead of
+    # stopping with a tool error
+    retry = []
+    for i, q in enumerate(qs):
+        if q.result.status == 'error' and q.result.note.startswith('unwinding bound too small') and q.meta['prop'] == 7:
+            q2 = plan.k3_query(q.meta['cont'], q.meta['method'], dict(plan.k3_methods(q.meta['cont']))[q.meta['method']], q.meta['n'], 7,
+                               rlen=q.meta['rlen'], timeout=q.timeout * 3)
+            q2.unwind = 140
+            q2.name += '_u140'
+            q2.meta['mem_gb'] = q2.meta['mem_gb'] * 3
+            retry.append((i, q2))
+    if retry:
+        sys.stderr.write('%s: %d K3 queries exceed the unwinding bound; deciding them again with --unwind 140\n' % (pid, len(retry)))
+        core.run_all([q2 for _, q2 in retry])
+        for i, q2 in retry:
+            qs[i] = q2
     groups = {}
     for q in qs:
         groups.setdefault((q.meta['cont'], q.meta['method'], q.meta['n']), {})[q.meta['prop']] = q
@@ -625,7 +642,7 @@ def run_property(num, tier, seed, only=None):
     sys.stderr.write('%s %s: %d queries\n' % (pid, tier, len(qs)))
     validate_translation(ev, sorted({q.meta['cont'] for q in qs}), seed, tier)
     core.run_all(qs)
-    rc = finish(ev, num, tier, qs, known)
+    rc = finish(ev, num, tier, qs, known, only_conts=only)
     return rc
 
 
@@ -647,7 +664,7 @@ def validate_translation(ev, conts, seed, tier):
     ev.extra['translation_validation'] = {c: {'lines_identical': r['lines'], 'identical': r['identical']} for c, r in res}
 
 
-def finish(ev, num, tier, qs, known, extra_violations=()):
+def finish(ev, num, tier, qs, known, extra_violations=(), only_conts=None):
     cfg = TIERS[tier]
     pid = ev.pid
     violations_pre = []
@@ -703,6 +720,19 @@ def finish(ev, num, tier, qs, known, extra_violations=()):
                         msg = '%s: position(s) %s unreachable as victim in the encoding but the real-build histogram shows them chosen' % (q.name, immune)
                         ev.inconclusive.append(msg)
                         print('INCONCLUSIVE property=%s %s' % (pid, msg))
+    # ---- C15, the part the symbolic model cannot see: vstd models every draw of the random engine as an arbitrary value,
+    # so a defect in the engine's STATE handling (e.g. re-seeding from a constant on some path) leaves all solver queries
+    # green.  The victim histogram on the real build (plain stream, erase+refill before every eviction) therefore runs on
+    # every C15 check; its thresholds only flag a position never / always chosen in 4000 evictions.
+    if num == 15 and 'rr' not in reproduced_conts and (not only_conts or 'rr' in only_conts):
+        for n in (2, 3):
+            ok, path, info = spread_replay(ev, num, n)
+            ev.obligations += 1
+            if ok:
+                violations.append((path, 'victim histogram on the real build at capacity %d: a position is never / always chosen (%s)' % (n, info['tail'].strip().splitlines()[-2][:120] if info['tail'].strip() else '')))
+                reproduced_conts.add('rr')
+                break
+            ev.discharged += 1
     # ---- K1 counterexamples are public-API histories: replay them on the real build
     for q, bad in k1_fail:
         ok, path, info = lift_and_replay(ev, num, q)
